@@ -5,7 +5,7 @@ cd /repo || exit 2
 export CARGO_NET_OFFLINE=true
 OUT=$(mktemp)
 if cargo nextest --version >/dev/null 2>&1; then
-  cargo nextest run --workspace --no-fail-fast --offline --test-threads 8 >"$OUT" 2>&1
+  cargo nextest run --workspace --no-fail-fast --offline --test-threads 8 --config-file /verif/tools/nextest.toml >"$OUT" 2>&1
 else
   cargo test --workspace --no-fail-fast --offline >"$OUT" 2>&1
 fi
